@@ -108,6 +108,7 @@ KINDS = {
                   ['-O1', '-g', '-fsanitize=address,undefined', '-fno-sanitize-recover=all', '-fno-omit-frame-pointer',
                    '-DSYMX_SANITIZED'], ['-lz3', '-lboost_timer']),
     'real': (dict(tbb=True, mpi=True), [], ['-O1', '-g'], ['-lboost_timer', '-ltbb']),
+    'real_nolib': (dict(tbb=True, mpi=True), [], ['-O1', '-g'], []),
     'real_asan': (dict(tbb=True, mpi=True), [],
                   ['-O1', '-g', '-fsanitize=address,undefined', '-fno-sanitize-recover=all', '-fno-omit-frame-pointer'],
                   ['-lboost_timer', '-ltbb']),
